@@ -1,4 +1,5 @@
 import Rfsm.Proofs.ReaderContent
+import Rfsm.Model.ReaderSpec
 /-!
 C04 (b), the leaves: `<raise>`, `<cancel>`, `<log expr>`, `<script>`, `<assign>` are read as exactly
 one entry that decompiles to the normal form of the element (`LeafOK`), from every reader state
@@ -138,10 +139,71 @@ theorem script_parent {t : Tag} (h : t ∈ contentParentsNoFinalize) :
   simp only [contentParentsNoFinalize, List.mem_cons, List.not_mem_nil, or_false] at h
   rcases h with h | h | h | h | h <;> simp [h]
 
-theorem leaf_script (t : Str) : LeafOK (.script t) := by
+/-! ### child text: `resolve_character_data` on text without markup, and on escaped text -/
+
+/-- text without `&` and `<` (no references, no markup) -/
+def plainText (t : Str) : Bool := t.all fun c => c != 38 && c != 60
+
+theorem resolveAux_plain (t : Str) (h : plainText t = true) :
+    ∀ f d, t.length < f → resolveAux f d t = some t := by
+  induction t with
+  | nil =>
+    intro f d hf
+    cases f with
+    | zero => simp at hf
+    | succ f => simp [resolveAux]
+  | cons c cs ih =>
+    intro f d hf
+    cases f with
+    | zero => simp at hf
+    | succ f =>
+      simp only [plainText, List.all_cons, Bool.and_eq_true, bne_iff_ne, ne_eq] at h
+      have hcs : plainText cs = true := by simpa [plainText] using h.2
+      have := ih hcs f d (by simpa using hf)
+      simp [resolveAux, h.1.1, h.1.2, this]
+
+/-- text without references and markup is its own character data -/
+theorem resolve_plain (t : Str) (h : plainText t = true) : resolveCharData t = some t :=
+  resolveAux_plain t h _ 0 (by omega)
+
+theorem resolveAux_escape (t : Str) : ∀ f, (xmlEscape t).length < f → resolveAux f 0 (xmlEscape t) = some t := by
+  induction t with
+  | nil =>
+    intro f hf
+    cases f with
+    | zero => simp at hf
+    | succ f => simp [xmlEscape, resolveAux]
+  | cons c cs ih =>
+    intro f hf
+    cases f with
+    | zero => simp at hf
+    | succ f =>
+      by_cases h38 : c = 38
+      · subst h38
+        simp only [xmlEscape, if_true, List.cons_append, List.nil_append, List.length_cons] at hf ⊢
+        have := ih f (by omega)
+        simp [resolveAux, splitAtPat, List.isPrefixOf, decodeRef, this]
+      · by_cases h60 : c = 60
+        · subst h60
+          simp only [xmlEscape, List.cons_append, List.nil_append, List.length_cons] at hf ⊢
+          have := ih f (by simp at hf; omega)
+          simp [resolveAux, splitAtPat, List.isPrefixOf, decodeRef, this]
+        · simp only [xmlEscape, h38, h60, if_false, List.length_cons] at hf ⊢
+          have := ih f (by omega)
+          simp [resolveAux, h38, h60, this]
+
+/-- **escape / resolve round trip**: child text written with `&amp;` / `&lt;` is read back as the
+logical text, for every text -/
+theorem resolve_escape (t : Str) : resolveCharData (xmlEscape t) = some t :=
+  resolveAux_escape t _ (by omega)
+
+theorem resolve_nil : resolveCharData [] = some [] := by simp [resolveCharData, resolveAux]
+
+theorem leaf_script (t : Str) (hpl : plainText t = true) : LeafOK (.script t) := by
   intro σ es hR
   have hl : localName t_script = t_script := by decide
   have ht : tagOf t_script = .script := by decide
+  have hres := resolve_plain t hpl
   obtain ⟨hp1, hp2⟩ := script_parent hR.tag
   by_cases he : t = []
   · subst he
@@ -151,12 +213,12 @@ theorem leaf_script (t : Str) : LeafOK (.script t) := by
   · have hne : t.isEmpty = false := by cases t <;> simp_all
     by_cases htr : trim t = []
     · refine ⟨.expression (.source [] 0), σ.nextSrc, ?_, by simp [dLeaf, normC, dData, htr], by simp [dEntry]⟩
-      simp [saxC, rawSax, hne, run, step, hR.raw, hl, ht, isRawTag, rawElement, rawPre, startScript, verifyParent,
+      simp [saxC, rawSax, hne, run, step, hR.raw, hl, ht, hres, isRawTag, rawElement, rawPre, startScript, verifyParent,
         RS.parentTag, RS.push, getAttr, addExec, hR.cur0, hR.reg, bind, Except.bind, RS.pop, RS.upd, hp1, hp2,
         trim_idem, htr, trim_nil]
     · have hne2 : (trim t).isEmpty = false := by cases h : trim t <;> simp_all
       refine ⟨.expression (.source (trim t) σ.nextSrc), σ.nextSrc + 1, ?_, by simp [dLeaf, normC, dData], by simp [dEntry]⟩
-      simp [saxC, rawSax, hne, run, step, hR.raw, hl, ht, isRawTag, rawElement, rawPre, startScript, verifyParent,
+      simp [saxC, rawSax, hne, run, step, hR.raw, hl, ht, hres, isRawTag, rawElement, rawPre, startScript, verifyParent,
         RS.parentTag, RS.push, getAttr, addExec, hR.cur0, hR.reg, bind, Except.bind, RS.pop, RS.upd, hp1, hp2,
         trim_idem, hne2, createSource]
 
@@ -174,14 +236,14 @@ theorem leaf_assign_expr (l : Str) (e : Option Str) : LeafOK (.assign l e none) 
   have hp := assign_parent hR.tag
   cases e with
   | none =>
-    refine ⟨.assign (.source l σ.nextSrc) .none, σ.nextSrc + 1, ?_, by simp [dLeaf, normC, dData, assignValue],
+    refine ⟨.assign (.source l σ.nextSrc) .none, σ.nextSrc + 1, ?_, by simp [dLeaf, normC, dData, assignValue, normText],
       by simp [dEntry]⟩
     simp [saxC, rawSax, optA, run, step, hR.raw, hl, ht, isRawTag, rawElement, rawPre, startAssign, verifyParent,
       RS.parentTag, RS.push, required, getAttr, hk, addExec, hR.cur0, hR.reg, bind, Except.bind, endElement, RS.pop,
       RS.upd, hp, createSource]
   | some e =>
     refine ⟨.assign (.source l σ.nextSrc) (.source e (σ.nextSrc + 1)), σ.nextSrc + 2, ?_,
-      by simp [dLeaf, normC, dData, assignValue], by simp [dEntry]⟩
+      by simp [dLeaf, normC, dData, assignValue, normText], by simp [dEntry]⟩
     simp [saxC, rawSax, optA, run, step, hR.raw, hl, ht, isRawTag, rawElement, rawPre, startAssign, verifyParent,
       RS.parentTag, RS.push, required, getAttr, hk, addExec, hR.cur0, hR.reg, bind, Except.bind, endElement, RS.pop,
       RS.upd, hp, createSource]
@@ -190,23 +252,36 @@ theorem quoted_trim (x : Str) : trim ([34] ++ x ++ [34]) = [34] ++ x ++ [34] := 
   have := trim_fixed 34 34 x (by decide) (by decide)
   simpa using this
 
-theorem leaf_assign_text (l t : Str) : LeafOK (.assign l none (some t)) := by
+theorem leaf_assign_text (l t : Str) (hpl : plainText t = true) : LeafOK (.assign l none (some t)) := by
   intro σ es hR
   have hl : localName t_assign = t_assign := by decide
   have ht : tagOf t_assign = .assign := by decide
   have hp := assign_parent hR.tag
   have hq := trim_fixed 34 34 (assignEscape (trim t)) (by decide) (by decide)
   have hk : ¬ a_location = a_expr := by decide
-  refine ⟨.assign (.source l σ.nextSrc) (.source ([34] ++ assignEscape (trim t) ++ [34]) (σ.nextSrc + 1)),
-    σ.nextSrc + 2, ?_, by simp [dLeaf, normC, dData, assignValue], by simp [dEntry]⟩
-  by_cases he : t = []
-  · subst he
-    simp [saxC, rawSax, optA, run, step, hR.raw, hl, ht, isRawTag, rawElement, rawPre, startAssign, verifyParent,
-      RS.parentTag, RS.push, required, getAttr, hk, addExec, hR.cur0, hR.reg, bind, Except.bind, RS.pop,
-      RS.upd, hp, createSource, hq, Data.isEmpty]
-  · have hne' : t.isEmpty = false := by cases t <;> simp_all
-    simp [saxC, rawSax, optA, hne', run, step, hR.raw, hl, ht, isRawTag, rawElement, rawPre, startAssign, verifyParent,
-      RS.parentTag, RS.push, required, getAttr, hk, addExec, hR.cur0, hR.reg, bind, Except.bind, RS.pop,
-      RS.upd, hp, createSource, hq, Data.isEmpty]
+  have hres := resolve_plain t hpl
+  by_cases htr : trim t = []
+  · -- `<assign location="l"> </assign>`: no child text, read like `<assign location="l"/>`
+    refine ⟨.assign (.source l σ.nextSrc) .none, σ.nextSrc + 1, ?_,
+      by simp [dLeaf, normC, dData, assignValue, normText, htr], by simp [dEntry]⟩
+    by_cases he : t = []
+    · subst he
+      simp [saxC, rawSax, optA, run, step, hR.raw, hl, ht, resolve_nil, isRawTag, rawElement, rawPre, startAssign,
+        verifyParent, RS.parentTag, RS.push, required, getAttr, hk, addExec, hR.cur0, hR.reg, bind, Except.bind, RS.pop,
+        RS.upd, hp, createSource, trim_nil, Data.isEmpty]
+    · have hne' : t.isEmpty = false := by cases t <;> simp_all
+      simp [saxC, rawSax, optA, hne', run, step, hR.raw, hl, ht, hres, isRawTag, rawElement, rawPre, startAssign,
+        verifyParent, RS.parentTag, RS.push, required, getAttr, hk, addExec, hR.cur0, hR.reg, bind, Except.bind, RS.pop,
+        RS.upd, hp, createSource, htr, Data.isEmpty]
+  · have hne2 : (trim t).isEmpty = false := by cases h : trim t <;> simp_all
+    have hne' : t.isEmpty = false := by
+      cases t with
+      | nil => simp [trim_nil] at htr
+      | cons _ _ => rfl
+    refine ⟨.assign (.source l σ.nextSrc) (.source ([34] ++ assignEscape (trim t) ++ [34]) (σ.nextSrc + 1)),
+      σ.nextSrc + 2, ?_, by simp [dLeaf, normC, dData, assignValue, normText, hne2], by simp [dEntry]⟩
+    simp [saxC, rawSax, optA, hne', run, step, hR.raw, hl, ht, hres, isRawTag, rawElement, rawPre, startAssign,
+      verifyParent, RS.parentTag, RS.push, required, getAttr, hk, addExec, hR.cur0, hR.reg, bind, Except.bind, RS.pop,
+      RS.upd, hp, createSource, hq, hne2, Data.isEmpty]
 
 end Rfsm.Reader
